@@ -106,11 +106,27 @@ var concHistory []concCase
 
 const concHistoryLen = 3
 
+// concGoTasks holds every task involving Go types that this process has run so far (up to 400): what such a task leaves in
+// package-level state stays for the life of the process, so the culprit of a fresh-process difference can be any of them.
+var concGoTasks concCase
+
 func rememberConc(cs concCase) {
 	cs.Prelude, cs.Picks = nil, nil
 	concHistory = append(concHistory, cs)
 	if len(concHistory) > concHistoryLen {
 		concHistory = concHistory[len(concHistory)-concHistoryLen:]
+	}
+	if concGoTasks.World.Tables == nil {
+		concGoTasks.World = drive.CWorld{Tables: cs.World.Tables}
+	}
+	for _, t := range cs.Tasks {
+		switch t.Kind {
+		case "marshal", "encode", "unmarshal", "decode":
+			if len(concGoTasks.Tasks) < 400 {
+				t.Imports = nil
+				concGoTasks.Tasks = append(concGoTasks.Tasks, t)
+			}
+		}
 	}
 }
 
@@ -330,6 +346,9 @@ var concTableOps = []string{"string", "writeto", "find", "byid", "adjust", "buil
 
 func concTask(r *prng.Rand, w drive.CWorld, cat *model.Catalog, typePool []int) drive.CTask {
 	pickType := func() int {
+		if r.Chance(1, 10) {
+			return 18 // the chain type: values that nest hundreds of levels deep
+		}
 		if r.Bool() {
 			return typePool[r.Intn(len(typePool))]
 		}
@@ -935,7 +954,10 @@ func (s concurrent) checkPristine(c *Ctx, cs concCase, got [][]string, where str
 		}
 	}
 	if cs.Prelude == nil {
-		cs.Prelude = append([]concCase(nil), concHistory...)
+		if len(concGoTasks.Tasks) > 0 {
+			cs.Prelude = append(cs.Prelude, concGoTasks)
+		}
+		cs.Prelude = append(cs.Prelude, concHistory...)
 	}
 	for _, outs := range got {
 		for i := range outs {
@@ -1017,6 +1039,18 @@ func (s concurrent) Shrink(caseJSON []byte) [][]byte {
 			emit(y)
 		}
 		for d, p := range cs.Prelude {
+			if len(p.Tasks) > 8 {
+				// long histories: halves first
+				for _, half := range [][]drive.CTask{p.Tasks[:len(p.Tasks)/2], p.Tasks[len(p.Tasks)/2:]} {
+					y := cs
+					y.Prelude = append([]concCase{}, cs.Prelude...)
+					q := p
+					q.Tasks = append([]drive.CTask{}, half...)
+					y.Prelude[d] = q
+					emit(y)
+				}
+				continue
+			}
 			for t := range p.Tasks {
 				if len(p.Tasks) > 1 {
 					y := cs
